@@ -33,6 +33,7 @@ type optsScenario struct {
 	Proto string    `json:"proto"`
 	Kind  string    `json:"kind"`
 	Panic *panicSc  `json:"panic"`
+	Flip  bool      `json:"flip"` // every group is a WithOptions (else: the side-specific constructors at even depth)
 }
 
 func init() { families["opts"] = runOpts }
@@ -235,7 +236,7 @@ func buildOpts(nodes []optNode, side string, log *layerLog, rl *recoverLog, rec 
 		var sub []optNode
 		_ = json.Unmarshal(n.V, &sub)
 		c, h := buildOpts(sub, side, log, rl, rec, depth+1)
-		if depth%2 == 0 {
+		if depth%2 == 0 && depth < 1<<20 {
 			copts = append(copts, connect.WithClientOptions(c...))
 			hopts = append(hopts, connect.WithHandlerOptions(h...))
 		} else {
@@ -283,7 +284,11 @@ func runOpts(raw json.RawMessage, seed int64, rec *Rec) {
 	rec.Add(E("reset", "tid", s.Tid, "sc", scm))
 	log := &layerLog{}
 	rl := &recoverLog{}
-	copts, hopts := buildOpts(s.Opts, s.Side, log, rl, rec, 0)
+	depth0 := 0
+	if s.Flip {
+		depth0 = 1 << 20 // WithOptions at every depth
+	}
+	copts, hopts := buildOpts(s.Opts, s.Side, log, rl, rec, depth0)
 	emitApply(s.Opts, rec)
 	if s.Proto == "" {
 		s.Proto = "connect"
